@@ -50,7 +50,7 @@ int ops_gen_core(int argc, char **argv, FILE *out) {
         return 1;
     }
     if(!cur_td && (!strcmp(op, "descr") || !strcmp(op, "enc") || !strcmp(op, "dec") || !strcmp(op, "rt") || !strcmp(op, "decchunks")
-                   || !strcmp(op, "decq") || !strcmp(op, "check") || !strcmp(op, "cmp") || !strcmp(op, "transcode") || !strcmp(op, "echo"))) {
+                   || !strcmp(op, "decq") || !strcmp(op, "reenc") || !strcmp(op, "check") || !strcmp(op, "cmp") || !strcmp(op, "transcode") || !strcmp(op, "echo"))) {
         fputs("no-type", out); return 1;
     }
     if(!strcmp(op, "descr")) { rf_dump_descr(cur_td, out); return 1; }
@@ -81,6 +81,24 @@ int ops_gen_core(int argc, char **argv, FILE *out) {
         fprintf(out, "%s %zu ", gen_rc_name(rv.code), rv.consumed);
         if(rv.code == RC_OK && st) rf_dump(cur_td, st, out); else fputc('-', out);
         if(strcmp(op, "decq")) gen_exercise(cur_td, st);   /* decq: decode only */
+        ASN_STRUCT_FREE(*cur_td, st);
+        free(b);
+        return 1;
+    }
+    if(!strcmp(op, "reenc") && argc == 3) {
+        /* reenc <syn> <hex>: decode, then DER-encode what was decoded: `<rc> <consumed> <der hex|->` */
+        enum asn_transfer_syntax syn = gen_syntax(argv[1], 1);
+        size_t len; uint8_t *b = hx_parse_exact(argv[2], &len);
+        if(!b) { fputs("bad-op", out); return 1; }
+        void *st = 0;
+        asn_dec_rval_t rv = asn_decode(0, syn, cur_td, &st, b, len);
+        fprintf(out, "%s %zu ", gen_rc_name(rv.code), rv.consumed);
+        if(rv.code == RC_OK && st) {
+            asn_encode_to_new_buffer_result_t r = asn_encode_to_new_buffer(0, ATS_DER, cur_td, st);
+            if(r.buffer && r.result.encoded >= 0) hx_print(out, r.buffer, r.result.encoded); else fputs("encfail", out);
+            free(r.buffer);
+            fputc(' ', out); rf_dump(cur_td, st, out);
+        } else fputs("- -", out);
         ASN_STRUCT_FREE(*cur_td, st);
         free(b);
         return 1;
